@@ -642,7 +642,7 @@ func scenInterp(seed uint64, iters int, o *wout) {
 			case <-done:
 				return
 			}
-			time.Sleep(time.Duration(r2.Intn(150000)) * time.Microsecond)
+			time.Sleep(time.Duration(r2.Intn(400000)) * time.Microsecond)
 		}
 	}()
 	progs := []string{
